@@ -259,13 +259,18 @@ func (sp *Specs) LoadFile(path string, stripPrefix string) error {
 				return fmt.Errorf("%s: ghostvar outside func", src)
 			}
 			eqi := strings.Index(rest, "=")
-			fs := strings.Fields(rest)
-			if eqi < 0 || len(fs) < 4 {
-				return fmt.Errorf("%s: ghostvar <name> <type> = <expr>", src)
+			if eqi < 0 {
+				// no initial value: arbitrary at entry
+				head := strings.Fields(rest)
+				if len(head) != 2 {
+					return fmt.Errorf("%s: ghostvar <name> <type> [= <expr>]", src)
+				}
+				cur.GhostVars = append(cur.GhostVars, &GhostVar{Name: head[0], Type: head[1]})
+				break
 			}
 			head := strings.Fields(rest[:eqi])
 			if len(head) != 2 {
-				return fmt.Errorf("%s: ghostvar <name> <type> = <expr>", src)
+				return fmt.Errorf("%s: ghostvar <name> <type> [= <expr>]", src)
 			}
 			c, err := mkClause(strings.TrimSpace(rest[eqi+1:]))
 			if err != nil {
